@@ -178,6 +178,36 @@ func sbRender(name, route string, args []sbArg, uniq string) []string {
 	return []string{"(" + name + a + ")"}
 }
 
+// sbPrelude: the definitions by which a script binds the names of shadow itself.
+// sameText: only those that compile in any case (a reserved word cannot be
+// defined: its definition would stop the compilation of the whole text).
+func sbPrelude(kind string, shadow []string, sameText bool) []string {
+	var out []string
+	for _, n := range shadow {
+		if sameText && sbReserved(n) {
+			continue
+		}
+		switch kind {
+		case "def":
+			out = append(out, "(def "+n+" 0)")
+		case "defn":
+			out = append(out, "(defn "+n+" [& zvr] 0)")
+		case "defmac":
+			out = append(out, "(defmac "+n+" [& zvr] 0)")
+		}
+	}
+	return out
+}
+
+func sbReserved(n string) bool {
+	for _, w := range zygo.ReservedWords {
+		if w == n {
+			return true
+		}
+	}
+	return false
+}
+
 var sbReplCmds = []string{".quit", ".cd", ".dump", ".gls", ".ls", ".verb", ".debug", ".undebug"}
 
 func isReplCmd(n string) bool {
@@ -222,6 +252,7 @@ type sbUniverse struct {
 	Special  []string `json:"special"`
 	Builtins []string `json:"builtins"` // names of the builtin table of the full configuration
 	CmdSeen  bool     `json:"cmdseen"`  // the cmd column was observed on the real binary
+	Unstable []string `json:"unstable"` // names whose binding in bare/std differs when an unsandboxed interpreter was set up first
 }
 
 // sbSpecialForms reads the case labels of the switch on sym.name in
@@ -305,6 +336,33 @@ func sbDump(c *common, zygoBin, repo string) int {
 		}
 		env.Close()
 	}
+	// process history: the same sandboxed configurations created AFTER the unsandboxed
+	// one was set up and used; a name bound in either order counts as bound
+	u.Unstable = []string{}
+	for ci, cfg := range sbCfgs[:2] {
+		env := sbNewEnv(cfg)
+		seen := map[string]bool{}
+		for _, n := range env.VerifGlobalNames() {
+			seen[n] = true
+			if x := get(n); x != nil && x.Kind[ci] == "unbound" {
+				x.Kind[ci] = env.VerifGlobalKind(n)
+				u.Unstable = append(u.Unstable, cfg+":"+n)
+			}
+		}
+		for _, n := range env.VerifMacroNames() {
+			if x := get(n); x != nil && !x.Mac[ci] {
+				x.Mac[ci] = true
+				u.Unstable = append(u.Unstable, cfg+":"+n)
+			}
+		}
+		for n, x := range names {
+			if x.Kind[ci] != "unbound" && !seen[n] {
+				u.Unstable = append(u.Unstable, cfg+":"+n)
+			}
+		}
+		env.Close()
+	}
+	sort.Strings(u.Unstable)
 	for _, n := range u.Special {
 		if x := get(n); x != nil {
 			x.Special = true
@@ -594,7 +652,9 @@ type sbJob struct {
 	K     int      `json:"k"`
 	Sess  int      `json:"sess"` // probes of one session may share an interpreter; -1: always a fresh one
 	Cfg   string   `json:"cfg"`
-	Lines []string `json:"lines"` // with the placeholder
+	Lines []string `json:"lines"`          // with the placeholder
+	Pre   []string `json:"pre,omitempty"`  // the script's own definitions, evaluated (each by a call of its own) when the session gets its interpreter
+	Hist  bool     `json:"hist,omitempty"` // runs in a process that created and used an UNSANDBOXED interpreter first
 }
 
 type sbObs struct {
@@ -640,6 +700,7 @@ func sbWorker(args []string) int {
 	dir := fs.String("dir", "", "")
 	fsecret := fs.String("fsecret", "", "")
 	esecret := fs.String("esecret", "", "")
+	history := fs.Bool("history", false, "")
 	fs.Parse(args)
 	if err := os.Chdir(*dir); err != nil {
 		fatal("chdir: %v", err)
@@ -691,9 +752,24 @@ func sbWorker(args []string) int {
 	type lineRes struct{ kind, shown string }
 	req := make(chan sbJob)
 	done := make(chan []lineRes, 1)
+	// process history: an unsandboxed interpreter is created, set up and used
+	// before the first sandboxed one, and again before every 4th session
+	useUnsandboxed := func() {
+		defer func() { recover() }()
+		e := zygo.NewZlisp()
+		e.StandardSetup()
+		for _, t := range []string{"(def zvhist (+ 1 2))\n", "(defn zvhf [x] (str x))\n", "(zvhf zvhist)\n", "(defined? \"sys\")\n"} {
+			sbEvalLine(e, t)
+		}
+		e.Close()
+	}
+	if *history {
+		useUnsandboxed()
+	}
 	go func() {
 		var env *zygo.Zlisp
 		sess, cfg := -1, ""
+		nsess := 0
 		for j := range req {
 			if env == nil || j.Sess < 0 || j.Sess != sess || j.Cfg != cfg {
 				if env != nil {
@@ -702,8 +778,20 @@ func sbWorker(args []string) int {
 						env.Close()
 					}()
 				}
+				nsess++
+				if *history && nsess%4 == 0 {
+					useUnsandboxed()
+				}
 				env = sbNewEnv(j.Cfg)
 				sess, cfg = j.Sess, j.Cfg
+				for _, l := range j.Pre {
+					if k, _ := sbEvalLine(env, l+"\n"); k != "val" && k != "nilres" {
+						func() {
+							defer func() { recover() }()
+							env.Clear()
+						}()
+					}
+				}
 			}
 			var out []lineRes
 			for _, l := range j.Lines {
@@ -852,7 +940,11 @@ func (r *sbRunner) runWorker(jobs []sbJob) map[int]sbObs {
 		rp := filepath.Join(ctl, "res")
 		so, _ := os.Create(filepath.Join(ctl, "stdout"))
 		se, _ := os.Create(filepath.Join(ctl, "stderr"))
-		cmd := exec.Command(r.self, "sandbox-worker", "-jobs", jp, "-res", rp, "-ctl", ctl, "-dir", dir, "-fsecret", fsec, "-esecret", esec)
+		wargs := []string{"sandbox-worker", "-jobs", jp, "-res", rp, "-ctl", ctl, "-dir", dir, "-fsecret", fsec, "-esecret", esec}
+		if pending[0].Hist {
+			wargs = append(wargs, "-history")
+		}
+		cmd := exec.Command(r.self, wargs...)
 		cmd.Dir = dir
 		cmd.Env = sbChildEnv(dir, esec)
 		cmd.Stdout, cmd.Stderr = so, se
@@ -1072,6 +1164,7 @@ func (r *sbRunner) runCmd(jobs []sbJob) map[int]sbObs {
 	var p *sbRepl
 	sessions := 0
 	lastSess := -2
+	preKey := ""
 	for _, j := range jobs {
 		if p != nil && j.Sess != lastSess {
 			sessions++
@@ -1080,10 +1173,22 @@ func (r *sbRunner) runCmd(jobs []sbJob) map[int]sbObs {
 				p = nil
 			}
 		}
+		// the script's own definitions stay in the repl: sessions with other definitions get another process
+		if key := strings.Join(j.Pre, "\n"); p != nil && key != preKey {
+			p.stop()
+			p = nil
+		}
 		lastSess = j.Sess
 		if p == nil {
 			p = r.startRepl()
 			sessions = 0
+			preKey = strings.Join(j.Pre, "\n")
+			if len(j.Pre) > 0 {
+				p.in.Write([]byte(preKey + "\n(println \"@@ZVP\")\n"))
+				if _, ok, _ := p.until("@@ZVP", sbProbeTimeout+time.Duration(len(j.Pre))*time.Second/4); !ok {
+					fatal("zygo -sandbox did not get through the prelude definitions")
+				}
+			}
 		}
 		var in bytes.Buffer
 		fmt.Fprintf(&in, "(println \"@@ZVB %d\")\n", j.K)
@@ -1155,6 +1260,14 @@ type sbVector struct {
 	Names []string   `json:"names"`
 	Route string     `json:"route"`
 	Progs [][]string `json:"progs,omitempty"` // kind prog: the lines of each program
+	// Pre: the sandboxed script first binds itself every name of Shadow (the names callable in the
+	// unsandboxed configuration and absent here): "" none | def | defn | defmac (a name cannot be a macro and a global at once).
+	// The routes eval and sym put the definitions in the SAME text as the probe, the others in earlier evaluations.
+	Pre    string   `json:"pre"`
+	Shadow []string `json:"shadow"`
+	// Hist: "" the sandboxed interpreter is the first of its process | "after": an unsandboxed
+	// interpreter (NewZlisp + StandardSetup) was created and used before it, and again between sessions.
+	Hist string `json:"hist"`
 }
 
 type sbEv struct {
@@ -1171,6 +1284,9 @@ type sbCase struct {
 	Cfg     string   `json:"cfg"`
 	Names   []string `json:"names"`
 	Route   string   `json:"route"`
+	Pre     string   `json:"pre"`
+	Shadow  []string `json:"shadow"`
+	Hist    string   `json:"hist"`
 	Inotify bool     `json:"inotify"`
 	Evs     []sbEv   `json:"evs"`
 }
@@ -1207,12 +1323,21 @@ func (r *sbRunner) execute(vecs []sbVector, alone bool, w *ndWriter) {
 			name = v.Names[0]
 		}
 		for _, s := range sbShapes {
-			probes = append(probes, sbProbe{vec: vi, shape: s.name, lines: sbRender(name, v.Route, s.args, strconv.Itoa(vi))})
+			lines := sbRender(name, v.Route, s.args, strconv.Itoa(vi))
+			if v.Pre != "" && (v.Route == "eval" || v.Route == "sym") {
+				// the definitions and the probe in ONE text: bound at run time, before eval compiles the form
+				lines = []string{strings.Join(append(sbPrelude(v.Pre, v.Shadow, true), lines...), " ")}
+			}
+			probes = append(probes, sbProbe{vec: vi, shape: s.name, lines: lines})
 		}
 	}
 	var inproc, viaCmd []sbJob
 	for k, p := range probes {
-		j := sbJob{K: k, Sess: p.vec, Cfg: vecs[p.vec].Cfg, Lines: p.lines}
+		v := vecs[p.vec]
+		j := sbJob{K: k, Sess: p.vec, Cfg: v.Cfg, Lines: p.lines, Hist: v.Hist == "after"}
+		if v.Pre != "" && v.Kind != "prog" && !(v.Route == "eval" || v.Route == "sym") {
+			j.Pre = sbPrelude(v.Pre, v.Shadow, false)
+		}
 		if alone {
 			j.Sess = -1
 		}
@@ -1238,7 +1363,17 @@ func (r *sbRunner) execute(vecs []sbVector, alone bool, w *ndWriter) {
 			}
 		}
 	}
-	batch(inproc, 2400, r.runWorker)
+	var first, after []sbJob
+	for _, j := range inproc {
+		if j.Hist {
+			after = append(after, j)
+		} else {
+			first = append(first, j)
+		}
+	}
+	batch(first, 2400, r.runWorker)
+	batch(after, 2400, r.runWorker)
+	sort.SliceStable(viaCmd, func(a, b int) bool { return strings.Join(viaCmd[a].Pre, "\n") < strings.Join(viaCmd[b].Pre, "\n") })
 	if len(viaCmd) > 0 && r.zygoBin == "" {
 		fatal("vectors of the cmd configuration need -zygo BIN")
 	}
@@ -1267,7 +1402,10 @@ func (r *sbRunner) execute(vecs []sbVector, alone bool, w *ndWriter) {
 	}
 	cases := make([]sbCase, len(vecs))
 	for vi, v := range vecs {
-		cases[vi] = sbCase{ID: v.ID, Kind: v.Kind, Cfg: v.Cfg, Names: v.Names, Route: v.Route, Inotify: r.inotify, Evs: []sbEv{}}
+		cases[vi] = sbCase{ID: v.ID, Kind: v.Kind, Cfg: v.Cfg, Names: v.Names, Route: v.Route, Pre: v.Pre, Shadow: v.Shadow, Hist: v.Hist, Inotify: r.inotify, Evs: []sbEv{}}
+		if cases[vi].Shadow == nil {
+			cases[vi].Shadow = []string{}
+		}
 		if cases[vi].Names == nil {
 			cases[vi].Names = []string{}
 		}
@@ -1297,10 +1435,11 @@ func (r *sbRunner) execute(vecs []sbVector, alone bool, w *ndWriter) {
 // ---------------------------------------------------------------- grammar-generated programs
 
 type sbGen struct {
-	r     *rng
-	names []sbName
-	n     int    // counter for fresh helper names
-	tag   string // makes the helper names of one program its own
+	r      *rng
+	names  []sbName
+	n      int        // counter for fresh helper names
+	tag    string     // makes the helper names of one program its own
+	shadow [][]string // per configuration: names callable unsandboxed and not there
 }
 
 func (g *sbGen) fresh(p string) string {
@@ -1397,6 +1536,16 @@ func (g *sbGen) program(ci int) ([]string, []string) {
 			form = "(expectError \"zvnone\" " + form + ")"
 		}
 	}
+	// a quarter of the programs first bind the names the sandbox lacks themselves:
+	// in earlier evaluations, or in the same text as a form that is compiled at run time
+	if len(g.shadow[ci]) > 0 && r.intn(4) == 0 {
+		kind := []string{"def", "defn", "defmac"}[r.intn(3)]
+		if r.bool() {
+			pre = append(sbPrelude(kind, g.shadow[ci], false), pre...)
+		} else {
+			form = strings.Join(sbPrelude(kind, g.shadow[ci], true), " ") + " (eval (quote " + form + "))"
+		}
+	}
 	return append(pre, form), used
 }
 
@@ -1437,7 +1586,7 @@ func init() {
 				if err := json.Unmarshal(line, &in); err != nil {
 					fatal("bad replay file: %v", err)
 				}
-				v := sbVector{ID: in.ID, Kind: in.Kind, Cfg: in.Cfg, Names: in.Names, Route: in.Route}
+				v := sbVector{ID: in.ID, Kind: in.Kind, Cfg: in.Cfg, Names: in.Names, Route: in.Route, Pre: in.Pre, Shadow: in.Shadow, Hist: in.Hist}
 				if in.Kind == "prog" {
 					for _, e := range in.Evs {
 						v.Progs = append(v.Progs, strings.Split(e.Text, "\n"))
@@ -1480,6 +1629,15 @@ func init() {
 					fatal("bad universe: %v", err)
 				}
 			})
+			callable := func(n sbName, ci int) bool { return n.Special || n.Mac[ci] || n.Kind[ci] != "unbound" }
+			shadow := make([][]string, len(sbCfgs))
+			for ci := range sbCfgs {
+				for _, n := range u.Names {
+					if callable(n, 3) && !callable(n, ci) {
+						shadow[ci] = append(shadow[ci], n.N)
+					}
+				}
+			}
 			for ci, cfg := range sbCfgs {
 				if cfg == "full" || (cfg == "cmd" && zygoBin == "") {
 					continue
@@ -1490,7 +1648,7 @@ func init() {
 						continue
 					}
 					idx++
-					g := &sbGen{r: newRng(c.seed, uint64(ci)<<32|uint64(i)), names: u.Names, tag: fmt.Sprintf("%dx", i)}
+					g := &sbGen{r: newRng(c.seed, uint64(ci)<<32|uint64(i)), names: u.Names, tag: fmt.Sprintf("%dx", i), shadow: shadow}
 					lines, used := g.program(ci)
 					vecs = append(vecs, sbVector{ID: fmt.Sprintf("g%d-%s-%d", c.seed, cfg, i), Kind: "prog", Cfg: cfg, Names: used, Route: "prog", Progs: [][]string{lines}})
 				}
